@@ -20,7 +20,9 @@
 //             | at I | range A B | carry (i..) | field K | fields (K..) | reduce NAME AX MASK KEEP
 //             | sort AX ASC STABLE | argsort AX ASC STABLE | combinations N REPL AX | rpad T AX | rpadclip T AX
 //             | simplify | materialize
-//   answer: (id ok (step (v ok R|= | err C | lazy) (e ok R | err C | lazy) (n c0 c1..) (t TOKEN...)) ...)
+//   answer: (id ok (step (v build) (e build) (n ..) (t ..))          <- construction of the two layouts
+//                  (step (v ok R|= | err C | lazy) [(veq 1 | 0 V E)] (e ok R | err C | lazy) (n c0 c1..) (t TOKEN...)) ...)
+//     "=" : same dump as the eager result; otherwise (veq ..) compares the two results by value (element walk)
 //     TOKEN = e (flaky eviction) | b+ b- (is_broken) | g<k>+ g<k>- (get hit/miss) | G<k><outcome> | s<k> (set)
 //             | E (explicit evict) | B (explicit break)
 //
@@ -28,7 +30,7 @@
 //     STEP = (at I) | (range A B STEP) | (narrow A B STEP) | (repartition t1 ...) | (pidx I) | (tojson) | (len)
 //          | (numpartitions) | (start I) | (stop I)
 //   every step is run on L split at the stops, on the eager L, and on the positions array [0..n-1] split the
-//   same way:  (step (p ok R) (e ok R) (q ok R))
+//   same way:  (step (p ok R) (e ok R) (q ok R) [(es EAGER-SLICE...) (peq 1|(0 V E) ...) (ty same|differ ..)] [(aeq ..)])
 #include "drv_common.h"
 #include "awkward/type/Type.h"
 #include "awkward/virtual/ArrayGenerator.h"
